@@ -127,17 +127,17 @@ EXTRA = {
     "C01": " Engine M (shuttle mirror, preemption-bounded DFS, bound 1-2/3): a Scheduler clone on a second thread issues each "
            "schedule* variant (plain, keyed, periodic, keyed periodic, source action) exactly while the simulation steps or "
            "runs step_until; every accepted action fires at its deadline, none fires at a time later than its deadline, "
-           "observed times never decrease. Further families of engine S: the stepping sequences of C18 under clocks lagging beyond the tolerance, judged on chronology (nothing runs late when the caller steps on after the error); the driver sequences and the deadline-boundary requests with simulations starting 7 s before the epoch and 2 ns before it (crossing it); the deadline-boundary requests with non-async and context-free input methods.",
+           "observed times never decrease. Further families of engine S: the stepping sequences of C18 under clocks lagging beyond the tolerance, judged on chronology (nothing runs late when the caller steps on after the error); the driver sequences and the deadline-boundary requests with simulations starting 7 s before the epoch and 2 ns before it (crossing it); the deadline-boundary requests with non-async and context-free input methods. Round-4 additions: deadlines and periods of the order of 10^18 ns, start times whose seconds cross 2^31 / 2^32 / 2^33 or are about 2^40; 200 and 700 models arming an event on themselves from init on the real 2- and 4-worker executor.",
     "C02": " Engine M: the triangle and relay benches on the real multi-threaded executor (2 workers) under every schedule "
            "within the preemption bound, same oracle.",
-    "C03": " Engine M: fan-out, contended-recipient and source benches on the real multi-threaded executor, same oracle. Further families of engine S: every ordered pair (and a third of the triples, all in thorough) of the nine connection kinds on one port, made directly, through a clone of the port before init, or through a clone kept by the driver after the model has emitted (late connections); recipients with non-async and context-free input methods.",
+    "C03": " Engine M: fan-out, contended-recipient and source benches on the real multi-threaded executor, same oracle. Further families of engine S: every ordered pair (and a third of the triples, all in thorough) of the nine connection kinds on one port, made directly, through a clone of the port before init, or through a clone kept by the driver after the model has emitted (late connections); recipients with non-async and context-free input methods. Round-4 additions: periodic source actions created before the source's connections exist (each occurrence goes to what is connected when it is processed); sinks of capacity 1-3 filled to exactly their capacity and beyond.",
     "C04": " Engine M: six of the same invariant-outcome benches on the real 2/3-worker executor under every schedule within "
            "the preemption bound: the outcome must equal the single-threaded reference; executor-only scenarios (tasks "
            "waking each other across workers, a second round after quiescence) must run every task before run() returns; "
            "600 wake-ups issued by one poll overflow the local queue into the injector (default schedule). Engine L: the "
            "worker idle protocol (push to injector / deactivate / last-searcher re-check) on the real PoolManager and "
            "Injector under loom: never a task left while every worker is idle. Engine Q: every push/pop_bucket/drain "
-           "sequence on the real Injector against a VecDeque-of-buckets reference. Engine S on real threads: healthy fan benches (200-model fan-out) with 3, 17, 63 and 64 worker threads: every call returns normally and completely (defect D7 was found here with 64 workers, the documented maximum).",
+           "sequence on the real Injector against a VecDeque-of-buckets reference. Engine S on real threads: healthy fan benches (200-model fan-out) with 3, 17, 63 and 64 worker threads: every call returns normally and completely (defect D7 was found here with 64 workers, the documented maximum). Round-4 addition: same-time batches larger than the target mailbox.",
     "C05": " Engine M: blocked-sender and concurrent-waker benches on the real 2-worker executor (overlap flag per model). "
            "Engine L: the task state machine under loom never polls one future from two threads at once.",
     "C06": " Engine M: healthy, deadlocking and message-losing benches on the real 2-worker executor: the per-worker message "
@@ -145,28 +145,29 @@ EXTRA = {
            "history scenarios: a simulation built on a thread on which an earlier simulation panicked or was dropped with "
            "messages in flight. Further scenarios of engine S: every model of a hierarchy root{a{x},b} + plain (and plain + root{a,b{y}}) stalls in turn; a Deadlock report is exact only if every reported model is really blocked inside a handler or its init.",
     "C07": " Engine Q: SeqFuture polled over every readiness pattern of up to 4 futures: strictly in order, each exactly "
-           "until ready, never polled after completion. Engine M: same-deadline batches on the 2-worker executor.",
+           "until ready, never polled after completion. Engine M: same-deadline batches on the 2-worker executor. Round-4 addition: absolute and relative deadlines for one instant, at ordinary and extreme start times (-1 s, 2^31, 2^33, 2^40).",
     "C08": " Engine M: a foreign thread scheduling at every deadline class exactly while step/step_until commits the new "
            "time (defect D5 was found here at preemption bound 1). Further families of engine S: every request kind x deadline class made from Model::init() (the time seen there is the start time), also with a start time crossing the epoch; non-async input methods; 700 and 1500 events accepted for one instant on the real 2- and 4-worker executor (the other workers kept busy) all fire.",
     "C09": " All families are run a second time with non-async input methods with and without context (scripts that need no await), quick: one alternative form per scenario, thorough: all three.",
-    "C10": " Also: the same partitions with simulations starting 7 s before the epoch and 2 ns before it; periodic source actions whose source has 2-4 connections to one model with mailbox capacity 1-2; non-async and context-free input methods.",
-    "C11": " Also: the fault sequences in a simulation built on a thread on which an earlier simulation was terminated by a panic / NoRecipient, including a simulation without any model. On the multi-threaded executor, handlers of the failed step still completing on other workers when the failing call returns are not counted as further attempts (DESIGN 6.2).",
+    "C10": " Also: the same partitions with simulations starting 7 s before the epoch and 2 ns before it; periodic source actions whose source has 2-4 connections to one model with mailbox capacity 1-2; non-async and context-free input methods. Round-4 additions: far-future deadlines / periods, start times crossing 2^31 and 2^33.",
+    "C11": " Also: the fault sequences in a simulation built on a thread on which an earlier simulation was terminated by a panic / NoRecipient, including a simulation without any model. On the multi-threaded executor, handlers of the failed step still completing on other workers when the failing call returns are not counted as further attempts (DESIGN 6.2). Round-4 additions: NoRecipient through a UniRequestor; the fault sequences and init faults on the single-threaded executor with a step timeout configured (helper thread).",
     "C13": " Programs with two executor threads taking the scheduled task from the same slot (successive polls on different threads, ordered only by the task's state word).",
     "C16": " Engine M: four of the init hierarchies on the real 2/3-worker executor under every schedule within the preemption bound (a worker going idle at the wrong moment must not leave init unfinished). Also the naming scenarios on the single-threaded executor with a step timeout configured (helper thread). On the real 2- and 4-worker executor: a hub whose init wakes 700 / 1500 idle models at once while the other workers are kept busy (every init exactly once, every early message processed, no model abandoned).",
+    "C20": " Long deterministic regimes for the indexed queue: fill / drain / refill with stale keys for sizes 1..40 and 2^k-1, 2^k, 2^k+1 up to 4097; churn with many different keys at 70-2100 entries; a sliding window (every pull followed by the insertion of a largest entry) at 5-2051 entries; heaps shaped by array position so that the path of smallest children ends at a chosen node, for sizes around 512, 1024 and 2048.",
     "C12": " Engine L: the real queue under loom (2 producers + consumer, capacities 1-2, close while pushing): no lost, "
            "duplicated or torn message, per-producer FIFO. Engine M: the real Sender/Receiver (async-event + diatomic-waker) "
            "under the preemption-bounded DFS: 1-3 producer threads x 1-3 messages on capacity 1-2 (senders do block), "
            "receiver draining or closing after 2 receptions: accepted = received (exactly once), per-producer FIFO, "
-           "every send completes or reports closure, no lost wake-up (a hang is a violation).",
+           "every send completes or reports closure, no lost wake-up (a hang is a violation). Round-4 addition (engine M): the receiver is dropped while 2-3 senders are blocked on the full mailbox: every one of them is resumed and fails.",
     "C14": " Engine L: CachedRwLock under loom (reader caches vs concurrent writer). Engine M: TaskSet wake/steal protocol of "
            "the source BroadcastFuture under the preemption-bounded DFS with resizing between uses.",
     "C15": " Engine M: Scheduler::time() read on a foreign thread before and after it schedules, while the simulation runs "
-           "step_until: never decreases; times seen by handlers and by the driver never decrease.",
+           "step_until: never decreases; times seen by handlers and by the driver never decrease. The values written span the whole range of both fields (seconds before the epoch, beyond 2^31, 2^33, 2^62; nanoseconds at both ends).",
     "C17": " Engine S also: sinks connected in every order with other connections, through port clones and late (after the model has emitted). Engine M: two models on two workers writing to one EventBuffer at and around capacity, reader on the driver "
-           "thread: per-writer order kept, length never above capacity, a closed buffer accepts nothing.",
+           "thread: per-writer order kept, length never above capacity, a closed buffer accepts nothing. Round-4 addition (engine Q): the same sequences with a zero-sized and with a large event type.",
     "C18": " Engine S also: an event source whose map / filter_map closures log their evaluation (user code of a periodic source action belongs to its synchronised time step, never to a step that reported a lag), both orders of set_clock / set_clock_tolerance, start time crossing the epoch. Engine M: step_until under a recording clock while a foreign thread schedules at or before the target "
            "(every scheduling entry point): arguments of synchronize strictly increase, no handler observes a time "
-           "smaller than an earlier one, the accepted action runs at its deadline.",
+           "smaller than an earlier one, the accepted action runs at its deadline. Round-4 additions: the largest lag a clock can report (Duration::MAX) with and without tolerance; 300 and 700 models on the real 2- and 4-worker executor (no init code before the start-time synchronisation, no model code of a step before its synchronisation).",
     "C19": " Engine M: the simulation dropped on the 2-worker executor (blocked senders, pending query, queued actions) "
            "and the bare executor dropped after a timeout / with tasks that wake each other while being dropped: every "
            "token and future dropped exactly once, the drop returns. Further benches of engine S: replies carry tracked tokens - query actions whose reply receiver is dropped or kept unread, queries processed in a step that fails after the replier replied; a handler that builds, runs and drops inner simulations (same executor kind) while other models are idle.",
